@@ -537,14 +537,26 @@ func errorCause(log string) string {
 	return head
 }
 
-var reSite = regexp.MustCompile(`/repo/([^ :]+:[0-9]+)`)
+var reFrame = regexp.MustCompile(`([A-Za-z0-9_./*()\[\]-]+?)(?:\([^@]*\))? @ /repo/([^ :]+):[0-9]+`)
 
-// siteOf extracts the first source position inside the repository from a panic description.
+// siteOf extracts the first frame inside the repository from a panic description as
+// "file.go:function" (no line number: it must survive unrelated edits of the file, and
+// which of several unchecked dereferences of one function fires first may depend on
+// map iteration order).
 func siteOf(desc string) string {
-	if m := reSite.FindStringSubmatch(desc); m != nil {
-		return m[1]
+	m := reFrame.FindStringSubmatch(desc)
+	if m == nil {
+		return "unknown-site"
 	}
-	return "unknown-site"
+	fn := m[1]
+	if i := strings.LastIndex(fn, "/"); i >= 0 {
+		fn = fn[i+1:]
+	}
+	if i := strings.IndexByte(fn, '.'); i >= 0 {
+		fn = fn[i+1:] // drop the package name
+	}
+	fn = strings.ReplaceAll(fn, "[...]", "")
+	return m[2] + ":" + fn
 }
 
 func locKind(loc string) string {
